@@ -77,6 +77,7 @@
 #include <cfloat>
 #include <execinfo.h>
 #include <fcntl.h>
+#include <map>
 #include <memory>
 #include <unordered_map>
 #include <omp.h>
@@ -293,7 +294,10 @@ struct Sim {
   // ---- inputs
   Geo g;
   int nth = 2, niter = 1, copy_level = 0, diffuse = 0, qk = 0;
-  size_t _number_of_photons = 0;
+  size_t _number_of_photons = 0; // discrete + injected (termination test)
+  size_t n_discrete = 0, n_injected = 0;
+  std::vector< int64_t > inj_cell, inj_frac, inj_dir;
+  std::vector< double > inj_tau;
   std::vector< int > stride;
   uint64_t sched_seed = 0;
   double tau_min = 1.;
@@ -371,7 +375,15 @@ struct Sim {
     diffuse = (int)c.i("diffuse");
     qk = (int)c.i("qk");
     sched_seed = (uint64_t)c.i("sched_seed");
-    _number_of_photons = (size_t)c.i("nphot");
+    n_discrete = (size_t)c.i("nphot");
+    if (c.has_i("inj_cell")) {
+      inj_cell = c.iv("inj_cell");
+      inj_frac = c.iv("inj_frac");
+      inj_dir = c.iv("inj_dir");
+      inj_tau = c.dv("inj_tau");
+    }
+    n_injected = inj_tau.size();
+    _number_of_photons = n_discrete + n_injected;
     for (auto s : c.iv("stride"))
       stride.push_back((int)std::max<int64_t>(1, s));
     stride.resize(nth, 1);
@@ -419,7 +431,7 @@ struct Sim {
     copy_levels();
 
     photon_source.reset(new DistributedPhotonSource< DensitySubGrid >(
-        _number_of_photons, *_photon_source_distribution, *_grid_creator));
+        n_discrete, *_photon_source_distribution, *_grid_creator));
 
     // "subgrid initialisation" of the simulation: which thread grabs which
     // subgrid is schedule dependent there; here it is part of the case
@@ -517,7 +529,7 @@ struct Sim {
 
   // REPLICA of "photon source tasks" (discrete sources only)
   void create_source_tasks() {
-    const size_t number_of_discrete_photons = _number_of_photons;
+    const size_t number_of_discrete_photons = n_discrete;
     number_of_photons_done = 0;
     uint64_t rounds = 0;
     {
@@ -548,9 +560,68 @@ struct Sim {
       }
     }
     // (the original asserts this; assertions are off in production)
-    if (number_of_photons_done != _number_of_photons)
+    if (number_of_photons_done != n_discrete)
       note(fmt("packets handed to source tasks %zu =/= packets requested %zu",
-               number_of_photons_done, _number_of_photons));
+               number_of_photons_done, n_discrete));
+  }
+
+  // VERIF: packets with degenerate directions (along an axis, a face diagonal
+  // or the body diagonal; started on cell lattice points), which isotropic
+  // point sources produce with probability ~0 but external sources with a
+  // fixed direction produce all the time.  They are put into the pool exactly
+  // as SourceDiscretePhotonTaskContext::execute does it (one buffer and one
+  // traversal task per subgrid), before the threads start.
+  void inject_packets() {
+    if (n_injected == 0)
+      return;
+    std::map< size_t, std::vector< size_t > > by_subgrid;
+    std::vector< CoordinateVector<> > pos(n_injected), dir(n_injected);
+    for (size_t k = 0; k < n_injected; ++k) {
+      double d[3], nrm = 0.;
+      for (int a = 0; a < 3; ++a) {
+        static const double fr[4] = {0., 0.25, 0.5, 0.01};
+        const double cs = g.side[a] / g.nc[a];
+        pos[k][a] = g.anchor[a] +
+                    ((double)inj_cell[3 * k + a] + fr[inj_frac[3 * k + a] & 3]) * cs;
+        d[a] = (double)inj_dir[3 * k + a];
+        nrm += d[a] * d[a];
+      }
+      const double inv = 1. / std::sqrt(nrm);
+      dir[k] = CoordinateVector<>(d[0] * inv, d[1] * inv, d[2] * inv);
+      by_subgrid[_grid_creator->get_subgrid(pos[k]).get_index()].push_back(k);
+    }
+    for (auto &grp : by_subgrid) {
+      const size_t subgrid_index = grp.first;
+      uint_fast32_t buffer_index = _buffers->get_free_buffer();
+      PhotonBuffer &input_buffer = (*_buffers)[buffer_index];
+      input_buffer.grow(grp.second.size());
+      input_buffer.set_subgrid_index(subgrid_index);
+      input_buffer.set_direction(TRAVELDIRECTION_INSIDE);
+      for (size_t i = 0; i < grp.second.size(); ++i) {
+        const size_t k = grp.second[i];
+        PhotonPacket &photon = input_buffer[i];
+        photon.set_type(PHOTONTYPE_PRIMARY);
+        photon.set_scatter_counter(0);
+        photon.set_position(pos[k]);
+        photon.set_direction(dir[k]);
+        photon.set_weight(1.);
+        photon.set_target_optical_depth(inj_tau[k]);
+        photon.set_energy(NU_SOURCE);
+        for (int_fast32_t ion = 0; ion < NUMBER_OF_IONNAMES; ++ion) {
+          photon.set_photoionization_cross_section(
+              ion, _cross_sections->get_cross_section(ion, NU_SOURCE) *
+                       (ion == ION_H_n ? 1. : 0.));
+        }
+      }
+      DensitySubGrid &subgrid = *_grid_creator->get_subgrid(subgrid_index);
+      const size_t task_index = _tasks->get_free_element();
+      Task &new_task = (*_tasks)[task_index];
+      new_task.set_type(TASKTYPE_PHOTON_TRAVERSAL);
+      new_task.set_subgrid(subgrid_index);
+      new_task.set_buffer(buffer_index);
+      new_task.set_dependency(subgrid.get_dependency());
+      _queues[subgrid.get_owning_thread()]->add_task(task_index);
+    }
   }
 
   // REPLICA of "create task contexts"
@@ -756,7 +827,8 @@ struct Sim {
       for (int d = 0; d < TRAVELDIRECTION_NUMBER; ++d)
         if ((*it).get_active_buffer(d) != NEIGHBOUR_OUTSIDE)
           ++s.slots;
-    s.launched = cmi_verif_counters()[CMI_VERIF_LAUNCHED_DISCRETE].load() +
+    s.launched = n_injected + // put into the pool before the threads start
+                 cmi_verif_counters()[CMI_VERIF_LAUNCHED_DISCRETE].load() +
                  cmi_verif_counters()[CMI_VERIF_LAUNCHED_CONTINUOUS].load();
     s.absorbed = cmi_verif_counters()[CMI_VERIF_ABSORBED].load();
     s.escaped = cmi_verif_counters()[CMI_VERIF_ESCAPED].load();
@@ -1105,6 +1177,7 @@ struct Sim {
       create_source_tasks();
       if (failed)
         break;
+      inject_packets();
       create_contexts();
 
       // budgets (deterministic run, so a budget hit is a failure):
@@ -1395,6 +1468,30 @@ VCase gen_case() {
   }
   c.I("choices", ch);
   c.I("cyclic", len > 0 && vr::coin(0.5));
+  // injected packets with degenerate directions
+  if (vr::coin(0.45)) {
+    const int K = (int)vr::irange(1, 12);
+    std::vector< int64_t > icell, ifrac, idir;
+    std::vector< double > itau;
+    const bool samefrac = vr::coin(0.7);
+    for (int k = 0; k < K; ++k) {
+      const int64_t f0 = vr::irange(0, 3);
+      int64_t dd[3] = {0, 0, 0};
+      while (dd[0] == 0 && dd[1] == 0 && dd[2] == 0)
+        for (int a = 0; a < 3; ++a)
+          dd[a] = vr::weighted({2, 1, 2}) - 1;
+      for (int a = 0; a < 3; ++a) {
+        icell.push_back(vr::irange(0, nc[a] - 1));
+        ifrac.push_back(samefrac ? f0 : vr::irange(0, 3));
+        idir.push_back(dd[a]);
+      }
+      itau.push_back(vr::coin(0.5) ? vr::uni(0.01, 4.) : vr::uni(0.5, 40.));
+    }
+    c.I("inj_cell", icell);
+    c.I("inj_frac", ifrac);
+    c.I("inj_dir", idir);
+    c.D("inj_tau", itau);
+  }
   c.D("anchor", std::vector< double >{anchor[0], anchor[1], anchor[2]});
   c.D("side", std::vector< double >{side[0], side[1], side[2]});
   c.D("spos", spos);
@@ -1478,6 +1575,8 @@ VResult o_loop(const VCase &c) {
     r.label("packets-not-multiple-of-200");
   if (S.q_checks)
     r.label("quiescent-points-checked");
+  if (S.n_injected)
+    r.label("injected-degenerate-direction-packets");
   if (S.budget_hit)
     r.label("budget-hit");
   // cost classes (to keep the budgets honest)
